@@ -309,6 +309,56 @@ def transform(ctx):
     ctx.ob('TRANSFORM', loc, 'the axes go through axes_check (orthogonal, right-handed, normalised) before the rotation is built', len(ac) == 1, node=fn)
 
 
+def transform_scales(ctx):
+    """transform() interpreted whole -- with the class's own constructor, setters and predicates, nothing stubbed but axes_check -- on a concrete cubic crystal (copper-like
+    ratios) at three sizes of the pressure unit, rotated by a rational rotation about z that is not a symmetry operation: the result is T T T T C whatever the unit"""
+    R = sp.Rational
+    fn = ctx.fn(EC, 'ElasticConstants.transform')
+    loc = EC + '::ElasticConstants.transform'
+    cls = ctx.fn(EC, 'ElasticConstants')
+    T = np.array([[R(3, 5), R(4, 5), R(0)], [R(-4, 5), R(3, 5), R(0)], [R(0), R(0), R(1)]], dtype=object)
+    n = 0
+    for stag, sc in (('entries of order one', R(1)), ('entries of order 1e-5 (a large pressure unit)', R(1, 10 ** 5)), ('entries of order 1e+11 (Pa)', R(10) ** 11)):
+        n += 1
+        c11, c12, c44 = R(1684, 1000) * sc, R(1214, 1000) * sc, R(754, 1000) * sc
+        M = np.zeros((6, 6), dtype=object)
+        M[...] = R(0)
+        for i in range(3):
+            for j in range(3):
+                M[i, j] = c11 if i == j else c12
+            M[i + 3, i + 3] = c44
+        ev = SymEval(module_aliases(ctx.mod(EC)))
+
+        def make(**kw):
+            o = SymObj(cls, {}, 'made')
+            init, _c = o.lookup('__init__')
+            sub = SymEval(module_aliases(ctx.mod(EC)))
+            sub.globals = dict(ev.globals)
+            live_ = [q for q in sub.run_fn(init, [o], dict(kw)) if q.done == 'return']
+            if len(live_) != 1:
+                raise WouldRaise('ElasticConstants(%s) is refused' % sorted(kw))
+            return o
+        ev.globals = {'ElasticConstants': make, 'axes_check': lambda a, **k: T.copy()}
+        try:
+            live = [q for q in ev.run_fn(fn, [_obj(ctx, M.copy()), T.copy()], {}) if q.done == 'return']
+            why = ''
+        except WouldRaise as e:
+            live, why = [], str(e)[:200]
+        except Opaque as e:
+            raise AnalysisError('transform on a concrete cubic crystal (%s): %s' % (stag, e))
+        got = None
+        if len(live) == 1 and isinstance(live[0].ret, SymObj):
+            got = live[0].ret.attrs.get('_ElasticConstants__c_ij')
+        C4 = tensor4(M)
+        want4 = np.einsum('ig,jh,km,ln,ghmn->ijkl', T, T, T, T, C4)
+        vg = ((0, 0), (1, 1), (2, 2), (1, 2), (0, 2), (0, 1))
+        want = np.array([[want4[vg[i] + vg[j]] for j in range(6)] for i in range(6)], dtype=object)
+        ok = got is not None and np.shape(got) == (6, 6) and all(abs(sp.nsimplify(sp.sympify(a_)) - b_) <= abs(c11) / 10 ** 9 for a_, b_ in zip(np.ravel(got), np.ravel(want)))
+        ctx.ob('TRANSFORM', loc, 'a cubic crystal with %s, turned about z by atan(4/3): the result is T T T T C (C\'11 = %s of C11), whatever the size of the numbers' % (stag, sp.nsimplify(want[0, 0] / c11)), bool(ok),
+               why or ('C\'11 / C11 = %s' % (None if got is None else sp.nsimplify(sp.sympify(got[0, 0])) / c11)), node=fn, key='transform scale ' + stag[:24])
+    ctx.floor('TRANSFORM/scales', n, 3)
+
+
 def _rot(axis, kind):
     t = sp.Symbol('tau', real=True)
     if kind == 2:
@@ -609,4 +659,4 @@ def run(ctx):
                        'evaluated by the analyser on generic symmetric matrices of symbols and compared, as exact polynomial / rational identities, with the Voigt map, the tensor '
                        'transformation law, the invariance of each system under its rotation generators, the (λ, μ) definitions of the six isotropic moduli and the Voigt/Reuss/Hill '
                        'formulas. Not decided: positive-definiteness and numerical conditioning.')
-    ctx.run_rules([voigt, compliance, transform, axes_check_rule, crystal, isotropic, normalized])
+    ctx.run_rules([voigt, compliance, transform, transform_scales, axes_check_rule, crystal, isotropic, normalized])
